@@ -453,10 +453,28 @@ def run(rep, facts):
     rep.floor("R9.2", "consume_stream sites in poll_input", counters["consumes"], 1)
 
 
+def run_stream_switch(rep, facts):
+    """R9.8: "selecting a later stream discards the rest of the current one and never yields bytes of any other stream": the parser-level
+    set_stream the async set_stream / writeable() go through demotes a record of the old stream in flight and discards buffered data on
+    every path that changes the stream (rule R18.2 of C18, re-evaluated)."""
+    from . import c18
+    rep.rule("R9.8", "a stream switch through the async interface leaves nothing of the old stream deliverable: on every path of the parser's set_stream that changes the "
+                     "stream the record state is tested, Stream is demoted to Skip, buffered data is discarded and the stream assigned (R18.2)")
+    sr = check.Report("tmp", "quick")
+    c18.run(sr, facts)
+    n = 0
+    for i in sr.instances:
+        if i["rule"] == "R18.2":
+            n += 1
+            (rep.ok if i["status"] == "ok" else rep.violation)("R9.8", i["instance"], i["detail"], i["loc"])
+    rep.floor("R9.8", "set_stream instances", n, 1)
+
+
 def main(rep, tier):
     f = F.load(("async", "http"))
     rep.configs.append({"features": "async,http", "profile": "debug", "bodies": len(f.bodies)})
     check.guard(rep, "R9", run, f)
+    check.guard(rep, "R9.8", run_stream_switch, f)
     import check as _c
     _c.witnesses(rep, "C09", f)
     return rep.finish(
